@@ -17,7 +17,7 @@ def gen_case(rng):
     enc = rng.choice(['utf-8', 'utf-8', 'latin-1', 'cp1251', 'utf-8-sig'])      # utf-8-sig: what the trainer auto-detects for a list saved as "UTF-8 with BOM"
     # also characters a password may contain although they are not "printable": no-break space, DEL, a C1 control, soft hyphen, ideographic space,
     # zero-width joiner, a private-use code point
-    alph = {'utf-8': ['ab', 'abc', 'a1', 'xyя', 'aé😀'[:2], 'abcd', 'a\xa0b', 'a\x7f', 'ab\u3000', 'a\u200d1', 'a\ue000', 'a\x80', 'a\ufeffb', '\ufeffa', 'a"b', '"a', 'a,b', "a'"], 'latin-1': ['ab', 'aé', 'abñ', 'a\xa0', 'a\xad1'],
+    alph = {'utf-8': ['ab', 'abc', 'a1', 'xyя', 'aé😀'[:2], 'abcd', 'a\xa0b', 'a\x7f', 'ab\u3000', 'a\u200d1', 'a\ue000', 'a\x80', 'a\ufeffb', '\ufeffa', 'a"b', '"a', 'a,b', "a'", 'ae\u0301', 'e\u0301', 'a\u030ab'], 'latin-1': ['ab', 'aé', 'abñ', 'a\xa0', 'a\xad1'],
             'cp1251': ['ab', 'яб', 'aя1', 'a\xa0']}[enc if enc != 'utf-8-sig' else 'utf-8']
     alphabet = rng.choice(alph)
     ngram = rng.choice([2, 2, 3, 3, 4])
